@@ -544,6 +544,66 @@ static void coopCase(Rng & rng, int force = 0) {   // force: 1 = well-formed arg
     stat("coop:" + err); stat("coop_tmode:" + std::to_string(tmode > 3 ? 4 : tmode)); if (nB) stat("coop_bmode:" + std::to_string(bmode > 3 ? 4 : bmode));
 }
 
+// ------------------------------------------------------------------------------------------ conversion chains
+// one converting-constructor call  Target(src)  as a `ctor … copy` line; returns the object (null when rejected)
+template <class Target, class Src> static std::unique_ptr<Target> convertLine(const Src & src) {
+    std::unique_ptr<Target> obj;
+    Line l; l << "C06" << "ctor"; kinds<Target>(l); l << false << "copy";
+    dumpSrc(l, src, false);
+    std::string err = guarded([&] { obj.reset(new Target(src)); });
+    l << "|" << err; if (obj) dumpState(l, *obj); l.emit();
+    stat(std::string("chain_step:") + err);
+    return obj;
+}
+// a valid row with k entries below the storage threshold
+static V1 manySubRow(Rng & rng, size_t n, size_t k, double eps) {
+    V1 r(n, 0.0);
+    size_t big = rng.below(n);
+    for (size_t i = 0, c = 0; i < n && c < k; ++i) if (i != big) { r[i] = eps; ++c; }
+    double rest = 1.0; for (size_t i = 0; i < n; ++i) if (i != big) rest -= r[i];
+    if (n > k + 1 && rng.coin()) { size_t j = (big + 1) % n; while (r[j] != 0.0) j = (j + 1) % n; if (j != big) { r[j] = 0.25; rest -= 0.25; } }
+    r[big] = rest;
+    return r;
+}
+// generic (user-defined, probability-query-only) -> dense -> sparse -> dense, and generic -> sparse
+static void chainCase(Rng & rng) {
+    size_t S = (size_t)rng.range(3, 40), A = (size_t)rng.range(1, 2);
+    static const double epss[] = {9e-7, 4e-7, 1e-7, 2.5e-7};
+    GenericMdp g; g.S = S; g.A = A; g.d = makeDiscount(rng, true);
+    g.T.assign(S, V2(A)); g.R.assign(S, V2(A, V1(S)));
+    int rmode = (int)rng.below(3);
+    int budget = (int)rng.below(3);        // 0: nothing below the threshold; 1: dropped mass per row <= 8e-7 (sparse accepts); 2: anything
+    for (size_t s = 0; s < S; ++s) for (size_t a = 0; a < A; ++a) {
+        double eps = epss[rng.below(4)];
+        size_t k = rng.coin(1, 3) ? 0 : (size_t)rng.below(S);     // number of sub-threshold entries
+        if (budget == 0) k = 0;
+        if (budget == 1) k = std::min(k, (size_t)(8e-7 / eps));
+        g.T[s][a] = manySubRow(rng, S, k, eps);
+        for (size_t s1 = 0; s1 < S; ++s1) g.R[s][a][s1] = makeReward(rng, rmode);
+    }
+    stat("chain:start");
+    auto d = convertLine<MDP::Model>(g);
+    convertLine<MDP::SparseModel>(g);
+    if (!d) return;
+    auto sp = convertLine<MDP::SparseModel>(*d);
+    if (!sp) return;
+    auto d2 = convertLine<MDP::Model>(*sp);
+    if (d2) stat("chain:complete");
+}
+// fixed shape (caught a seeded change that validated the READ row instead of the STORED row in SparseModel(const M&)):
+// a 400-state row with 300 entries of 9e-7 — valid as supplied, 2.7e-4 short of one as stored
+static void bigRowCase() {
+    const size_t S = 400;
+    GenericMdp g; g.S = S; g.A = 1; g.d = 0.5;
+    g.T.assign(S, V2(1, V1(S, 0.0))); g.R.assign(S, V2(1, V1(S, 0.0)));
+    for (size_t s = 0; s < S; ++s) g.T[s][0][s] = 1.0;
+    for (size_t i = 0; i < 300; ++i) g.T[0][0][i + 1] = 9e-7;
+    g.T[0][0][0] = 1.0 - 300 * 9e-7;
+    auto d = convertLine<MDP::Model>(g);            // dense: accepted
+    convertLine<MDP::SparseModel>(g);               // sparse from generic: must be rejected (stored row)
+    if (d) convertLine<MDP::SparseModel>(*d);       // sparse from the dense library model: must be rejected too
+}
+
 // ------------------------------------------------------------------------------------------ witnesses (lowest indices)
 static void witnessCases(long idx) {
     if (idx == 0) {           // NaN discount through the setter; invalid discount through the basic constructor
@@ -575,6 +635,7 @@ long verif_ncases(const std::string & tier) { return tier == "thorough" ? 16000 
 void verif_case(Rng & rng, long idx, const std::string & tier) {
     if (idx < 4) { witnessCases(idx); return; }
     if (idx == 4) { discCase(rng); return; }
+    if (idx == 5) { bigRowCase(); return; }
     switch (idx % 16) {
         case 0: isprobCase(rng); break;
         case 1: amdpCase<false>(rng, idx); break;
@@ -587,7 +648,7 @@ void verif_case(Rng & rng, long idx, const std::string & tier) {
         case 8: case 14: historyCase<POMDP::SparseModel<MDP::SparseModel>>(rng, tier); break;
         case 9: historyCase<POMDP::Model<MDP::SparseModel>>(rng, tier); break;
         case 10: historyCase<POMDP::SparseModel<MDP::Model>>(rng, tier); break;
-        case 15: if (idx % 32 == 15) historyCase<MDP::Model>(rng, tier); else historyCase<MDP::SparseModel>(rng, tier); break;
+        case 15: chainCase(rng); chainCase(rng); break;
     }
 }
 }
